@@ -731,12 +731,23 @@ where
 {
     let list_ident = prot.read_list_begin()?;
     validate_list_type(T::ELEMENT_TYPE, &list_ident)?;
-    let mut res = Vec::with_capacity(list_ident.size as usize);
+    let mut res = thrift_list_vec(&list_ident);
     for _ in 0..list_ident.size {
         let val = T::read_thrift(prot)?;
         res.push(val);
     }
     Ok(res)
+}
+
+/// Returns an empty `Vec` to collect the elements of the Thrift list described by `list_ident`.
+///
+/// The announced element count comes from untrusted input (a few bytes can announce
+/// `i32::MAX` elements), so the up-front reservation is capped. The vector still grows
+/// to however many elements are actually decoded.
+pub(crate) fn thrift_list_vec<T>(list_ident: &ListIdentifier) -> Vec<T> {
+    const MAX_PREALLOC_BYTES: usize = 64 * 1024;
+    let max_elements = (MAX_PREALLOC_BYTES / std::mem::size_of::<T>().max(1)).max(1);
+    Vec::with_capacity((list_ident.size.max(0) as usize).min(max_elements))
 }
 
 pub(crate) fn validate_list_type(expected: ElementType, got: &ListIdentifier) -> Result<()> {
